@@ -303,7 +303,7 @@ class Gen:
 	def params(self, method: bool, first: str = 'self') -> str:
 		r = self.rnd
 		ps: list[str] = []
-		if method:
+		if method and first != '':
 			ps.append(first if self.friendly else self.pick(['self', 'self', 'cls']))
 		names = list(dict.fromkeys(self.name() for _ in range(r.randint(0, 3))))
 		names = [n for n in names if n not in ('self', 'cls')]
@@ -327,7 +327,7 @@ class Gen:
 	def decorators(self, ind: str, method: bool = False) -> list[str]:
 		out = []
 		for _ in range(self.rnd.randint(1, 2) if self.chance(0.25) else 0):
-			pool = ['Embed.public', 'deco', 'pkg.mod.deco'] + (['classmethod', 'property', 'abstractmethod'] + ([] if self.friendly else ['staticmethod']) if method or not self.friendly else [])
+			pool = ['Embed.public', 'deco', 'pkg.mod.deco'] + (['classmethod', 'property', 'abstractmethod', 'staticmethod'] if method or not self.friendly else [])
 			path = self.pick(pool)
 			args = f'({self.arguments(1)})' if self.chance(0.3) else ''
 			out.append(f'{ind}@{path}{args}')
@@ -364,8 +364,12 @@ class Gen:
 			tparams = f'[{", ".join(dict.fromkeys(self.pick(["T", "K", "V"]) for _ in range(r.randint(1, 2))))}]' if self.chance(0.08) else ''
 			decos = self.decorators(ind, in_class)
 			first = 'cls' if any('@classmethod' in d for d in decos[:1]) else 'self'
+			if self.friendly and in_class and any('@staticmethod' in d for d in decos):
+				decos = [d for d in decos if '@staticmethod' in d][:1] + [d for d in decos if '@staticmethod' not in d and '@classmethod' not in d and '@property' not in d]
+				first = ''
 			fname = '__init__' if in_class and first == 'self' and self.chance(0.3) else self.name()
-			head = f'def {fname}{tparams}({self.params(in_class, first)}) -> {self.pick(["None", self.type_expr()])}'
+			in_class_sig = in_class and first != ''
+			head = f'def {fname}{tparams}({self.params(in_class_sig, first) if first != "" else self.params(False)}) -> {self.pick(["None", self.type_expr()])}'
 			return decos + self.suite(head, depth, level, ind_unit, False, True)
 		if c <= 5:
 			out = self.suite(f'if {self.expr(2, LAMBDA)}', depth, level, ind_unit, in_class, in_func)
